@@ -11,10 +11,17 @@
 (* ctx.spawn (into the current group) or as plain asyncio tasks; both       *)
 (* inherit a snapshot of the spawner's context.                             *)
 (* Every action names its acting task; the other tasks must not notice.     *)
+(* A block object may also be PREPARED in one place (ctx.scope(...) /       *)
+(* ctx.updated(...) evaluated, the object kept) and entered later, by the   *)
+(* same or by another task: what is visible inside is what the ENTERING     *)
+(* task saw plus what the block supplies - nothing of the place where the   *)
+(* object was made.  An async scope object cannot be entered twice: the     *)
+(* second attempt is refused and leaves the surrounding context as it was.  *)
 (***************************************************************************)
 EXTENDS Naturals, Sequences, FiniteSets, TLC
 
-CONSTANTS NTasks, Types, Vals, MaxDepth, MaxOps, SupKind, Bug
+CONSTANTS NTasks, Types, Vals, MaxDepth, MaxOps, SupKind, Bug,
+          Prep       \* BOOLEAN: block objects prepared in one place and entered in another are explored
 (* Types \subseteq {"A", "A2", "B"}: A and A2 (a subclass of A) are default-constructible,
    B has a required attribute *)
 
@@ -30,9 +37,11 @@ VARIABLES st,      \* [Tasks -> [Types -> 0..] ]  current environment
           pc,      \* [Tasks -> "unborn" | "gate" | "done"]
           grp,     \* [Tasks -> scope id the task was spawned into (0 = detached)]
           caught,  \* [Tasks -> "none" | "E" | "BaseE"] what the task's innermost catch-all caught last
+          prep,    \* the prepared block object: [st: "none" | "ready" | "used", kind, sup, sid]
           nsid, nops, actor, obs
 
-vars == <<st, on, ms, tg, frames, base, pc, grp, caught, nsid, nops, actor, obs>>
+vars == <<st, on, ms, tg, frames, base, pc, grp, caught, prep, nsid, nops, actor, obs>>
+NoPrep == [st |-> "none", kind |-> "none", sup |-> <<>>, sid |-> 0]
 
 Pair == Types \X Vals
 (* what one block may supply: a sequence of (type, value); "full" = all sequences up to length 2,
@@ -82,7 +91,7 @@ Init == /\ st = [t \in Tasks |-> Empty] /\ on = [t \in Tasks |-> FALSE]
         /\ base = [t \in Tasks |-> [st |-> Empty, on |-> FALSE]]
         /\ pc = [t \in Tasks |-> IF t = 1 THEN "gate" ELSE "unborn"]
         /\ grp = [t \in Tasks |-> 0] /\ caught = [t \in Tasks |-> "none"]
-        /\ nsid = 0 /\ nops = 0 /\ actor = 1
+        /\ nsid = 0 /\ nops = 0 /\ actor = 1 /\ prep = NoPrep
         /\ obs = [t \in Tasks |-> [pc |-> IF t = 1 THEN "gate" ELSE "unborn",
                                    p |-> [T \in Types |-> IF t = 1 THEN <<NOCTX, NOCTX>> ELSE <<0, 0>>],
                                    ms |-> 0, tg |-> 0, exc |-> "none"]]
@@ -91,19 +100,50 @@ Op(t) == nops < MaxOps /\ nops' = nops + 1 /\ pc[t] = "gate" /\ actor' = t
 
 (* enter a block.  kind "ascope": async scope - `direct` state then the state yielded by its
    disposable, later wins; "sscope": sync scope; "update": ctx.updated *)
+EnterWith(t, kind, sup, sid) ==
+  /\ frames' = [frames EXCEPT ![t] = Append(@, [kind |-> kind, sup |-> sup, sst |-> st[t], son |-> on[t],
+                                                 sms |-> ms[t], stg |-> tg[t], sid |-> sid])]
+  /\ st' = [st EXCEPT ![t] = IF Bug = "first_wins" THEN MergeFirst(@, sup) ELSE Merge(@, sup)]
+  /\ on' = [on EXCEPT ![t] = TRUE]
+  /\ ms' = [ms EXCEPT ![t] = IF kind = "update" THEN @ ELSE sid]
+  /\ tg' = [tg EXCEPT ![t] = IF kind = "ascope" THEN sid ELSE @]
+
 Enter(t, kind, direct, disp) ==
   /\ Op(t) /\ Len(frames[t]) < MaxDepth
   /\ (kind # "ascope" => disp = <<>>)
-  /\ LET sup == direct \o disp
-         sid == IF kind = "update" THEN 0 ELSE nsid + 1 IN
-     /\ frames' = [frames EXCEPT ![t] = Append(@, [kind |-> kind, sup |-> sup, sst |-> st[t], son |-> on[t],
-                                                    sms |-> ms[t], stg |-> tg[t], sid |-> sid])]
-     /\ st' = [st EXCEPT ![t] = IF Bug = "first_wins" THEN MergeFirst(@, sup) ELSE Merge(@, sup)]
-     /\ on' = [on EXCEPT ![t] = TRUE]
-     /\ ms' = [ms EXCEPT ![t] = IF kind = "update" THEN @ ELSE sid]
-     /\ tg' = [tg EXCEPT ![t] = IF kind = "ascope" THEN sid ELSE @]
-     /\ nsid' = IF kind = "update" THEN nsid ELSE nsid + 1
-  /\ UNCHANGED <<base, pc, grp, caught>>
+  /\ EnterWith(t, kind, direct \o disp, IF kind = "update" THEN 0 ELSE nsid + 1)
+  /\ nsid' = IF kind = "update" THEN nsid ELSE nsid + 1
+  /\ UNCHANGED <<base, pc, grp, caught, prep>>
+  /\ Observe
+
+(* the block object is made (ctx.scope(...) / ctx.updated(...) evaluated) and kept for later; nothing is entered *)
+Prepare(t, kind, direct) ==
+  /\ Prep /\ Op(t) /\ prep.st = "none"
+  /\ prep' = [st |-> "ready", kind |-> kind, sup |-> direct, sid |-> IF kind = "update" THEN 0 ELSE nsid + 1]
+  /\ nsid' = IF kind = "update" THEN nsid ELSE nsid + 1
+  /\ UNCHANGED <<st, on, ms, tg, frames, base, pc, grp, caught>>
+  /\ Observe
+
+(* ... and entered - by whichever task: the state inside is the ENTERING task's plus what the block supplies *)
+EnterPrepared(t) ==
+  /\ Op(t) /\ prep.st = "ready" /\ Len(frames[t]) < MaxDepth
+  /\ IF Bug = "bound_where_made" /\ prep.sup = <<>>        \* mutant: (shown on an object that supplies nothing)
+       THEN /\ frames' = [frames EXCEPT ![t] = Append(@, [kind |-> prep.kind, sup |-> <<>>, sst |-> st[t], son |-> on[t],
+                                                            sms |-> ms[t], stg |-> tg[t], sid |-> prep.sid])]
+            /\ st' = [st EXCEPT ![t] = Empty] /\ on' = [on EXCEPT ![t] = TRUE]
+            /\ ms' = [ms EXCEPT ![t] = IF prep.kind = "update" THEN @ ELSE prep.sid]
+            /\ tg' = [tg EXCEPT ![t] = IF prep.kind = "ascope" THEN prep.sid ELSE @]
+       ELSE EnterWith(t, prep.kind, prep.sup, prep.sid)
+  /\ prep' = [prep EXCEPT !.st = "used"]
+  /\ UNCHANGED <<base, pc, grp, caught, nsid>>
+  /\ Observe
+
+(* a second attempt to enter the same async scope object - while it is still open, or after it was left - is refused
+   (the refusal shows where a catch-all would show an exception) and the task's context is what it was *)
+ReEnter(t) ==
+  /\ Op(t) /\ prep.st = "used" /\ prep.kind = "ascope"
+  /\ caught' = [caught EXCEPT ![t] = "refused"]
+  /\ UNCHANGED <<st, on, ms, tg, frames, base, pc, grp, prep, nsid>>
   /\ Observe
 
 Live(s) == {u \in Tasks : grp[u] = s /\ pc[u] = "gate"}
@@ -118,7 +158,7 @@ Leave(t) ==
      /\ on' = [on EXCEPT ![t] = f.son]
      /\ ms' = [ms EXCEPT ![t] = f.sms] /\ tg' = [tg EXCEPT ![t] = f.stg]
      /\ frames' = [frames EXCEPT ![t] = SubSeq(@, 1, Len(@) - 1)]
-  /\ UNCHANGED <<base, pc, grp, caught, nsid>>
+  /\ UNCHANGED <<base, pc, grp, caught, nsid, prep>>
   /\ Observe
 
 (* user code opens a catch-all (try / except BaseException) around what follows; the context is untouched *)
@@ -126,7 +166,7 @@ Try(t) ==
   /\ Op(t) /\ Len(frames[t]) < MaxDepth
   /\ frames' = [frames EXCEPT ![t] = Append(@, [kind |-> "try", sup |-> <<>>, sst |-> st[t], son |-> on[t],
                                                  sms |-> ms[t], stg |-> tg[t], sid |-> 0])]
-  /\ UNCHANGED <<st, on, ms, tg, base, pc, grp, caught, nsid>>
+  /\ UNCHANGED <<st, on, ms, tg, base, pc, grp, caught, nsid, prep>>
   /\ Observe
 
 (* the body raises an Exception / a BaseException: every block up to the innermost catch-all is left by it - scopes,
@@ -142,7 +182,7 @@ Raise(t, o) ==
      /\ ms' = [ms EXCEPT ![t] = f.sms] /\ tg' = [tg EXCEPT ![t] = f.stg]
      /\ frames' = [frames EXCEPT ![t] = SubSeq(@, 1, i - 1)]
      /\ caught' = [caught EXCEPT ![t] = o]
-  /\ UNCHANGED <<base, pc, grp, nsid>>
+  /\ UNCHANGED <<base, pc, grp, nsid, prep>>
   /\ Observe
 
 (* start task u from t: ctx.spawn (how = "spawn": joins t's current group) or a plain asyncio
@@ -158,20 +198,22 @@ Start(t, u, how) ==
   /\ ms' = [ms EXCEPT ![u] = ms[t]] /\ tg' = [tg EXCEPT ![u] = IF Bug = "leak_group" THEN 0 ELSE tg[t]]
   /\ base' = [base EXCEPT ![u] = [st |-> st[t], on |-> on[t]]]
   /\ grp' = [grp EXCEPT ![u] = IF how = "spawn" THEN tg[t] ELSE 0]
-  /\ UNCHANGED <<frames, caught, nsid>>
+  /\ UNCHANGED <<frames, caught, nsid, prep>>
   /\ Observe
 
 (* a task with no open block ends *)
 End(t) ==
   /\ Op(t) /\ frames[t] = <<>> /\ t # 1
   /\ pc' = [pc EXCEPT ![t] = "done"]
-  /\ UNCHANGED <<st, on, ms, tg, frames, base, grp, caught, nsid>>
+  /\ UNCHANGED <<st, on, ms, tg, frames, base, grp, caught, nsid, prep>>
   /\ Observe
 
 Next == \E t \in Tasks :
           \/ \E kind \in {"ascope", "sscope", "update"}, sup \in Sups :
                  \E k \in (IF kind = "ascope" THEN 0..Len(sup) ELSE {Len(sup)}) :
                     Enter(t, kind, SubSeq(sup, 1, k), SubSeq(sup, k + 1, Len(sup)))
+          \/ \E kind \in {"ascope", "sscope", "update"}, sup \in {x \in Sups : Len(x) <= 1} : Prepare(t, kind, sup)
+          \/ EnterPrepared(t) \/ ReEnter(t)
           \/ Leave(t) \/ End(t) \/ Try(t) \/ \E o \in {"E", "BaseE"} : Raise(t, o)
           \/ \E u \in Tasks, how \in {"spawn", "plain"} : Start(t, u, how)
 Spec == Init /\ [][Next]_vars
